@@ -42,6 +42,10 @@ CHECKS = {
    technique="explicit-state BFS over DDL/DML operation sequences on the real engine, step-wise conformance to a transactional-DDL snapshot-isolation model",
    text="Every sequence (to the completed depth) of CREATE TABLE (two shapes of the same name), DROP TABLE, re-CREATE, SET/DROP NOT NULL, CREATE UNIQUE INDEX, ADD/DROP COLUMN and DML on the same and on another table, in autocommit and inside committed or rolled-back sessions, with reopen; objects must be visible by name exactly while they exist for the reading snapshot, other tables undisturbed, and every history is followed by close + reopen + fresh read.",
    note="Trusted: the reference model; ADD COLUMN, DROP COLUMN, DROP TABLE / ALTER / CREATE INDEX inside a transaction are listed known findings and only their first step is executed."),
+ "C17": dict(engine="wal", cat=MC, ref="7/C17",
+   technique="explicit-state BFS over append/force/reopen/crash/truncate sequences on the real WriteAheadLog (through the verif facade), conformance to a list model",
+   text="Every sequence (to the completed depth) of append (size classes relative to the block being filled: header-only, 100 B, 10 KB, exact fit, one alignment unit too many, per-block maximum, maximum+8 which must be rejected), force, clean close+open, crash+open and truncate, from four seed states (empty; block zero 75% full; block zero full plus a full data block, forced; the same unforced); after every force and reopen the log is read back with read-ahead 1, 2, 4 and 16 and must equal the records appended since the last truncation and covered by a force: same order, strictly increasing sequence numbers, identical ids/kinds/payloads; unforced records may be missing after a crash only as a suffix.",
+   note="Trusted: the facade's pass-through (Wal::push assigns sequence numbers exactly like Pager::push_to_log) and the list model."),
  "C20": dict(engine="wire", cat=EX, ref="7/C20",
    technique="exhaustive enumeration of bounded message shapes and of all short / single-byte-mutated / length-corrupted byte strings against the real codec, in isolated worker processes with an address-space cap",
    text="Every Request and Response of a bounded shape (all variants; strings from {empty, ASCII, non-ASCII, 300 B, embedded NUL, 70 000 B}; boundary integers and floats; result sets up to 3x3 with every assignment of a 2-letter cell alphabet) is round-tripped through to_bytes/from_bytes and through the framing over an in-memory pipe, including a message of exactly MAX_MESSAGE_SIZE and one byte more. ALL byte strings of length <= 2 (thorough: <= 3), every strict prefix and every single-byte substitution of every short canonical encoding, and every length/count field set to boundary values are fed to both decoders and to the frame reader: each must return Ok/Err without panic, hang or an allocation beyond the 6 GiB cap; an accepted input must be stable under re-encoding; a strict prefix of a canonical encoding must be rejected.",
@@ -77,6 +81,8 @@ m = {
  "engines": [
    {"name": "crash", "path": "harness/src/engines/crash.rs", "serves_properties": [k for k,v in CHECKS.items() if v["engine"]=="crash"],
     "kind_free_text": "fault enumeration: the seq engine's histories run under an I/O tap; every prefix of the file-mutation stream (and, for C08, of the recovery's own stream) is rebuilt and reopened"},
+   {"name": "wal", "path": "harness/src/engines/wal.rs", "serves_properties": ["C17"],
+    "kind_free_text": "explicit-state BFS over log operation sequences on the real WriteAheadLog via the verif facade, list model as oracle"},
    {"name": "wire", "path": "harness/src/engines/wire.rs", "serves_properties": ["C20"],
     "kind_free_text": "flat exhaustive enumeration (index -> message / byte string) against the public tcp codec, chunked over worker subprocesses; a process death or hang is re-run one input at a time to name the input"},
    {"name": "seq", "path": "harness/src/engines/seq.rs", "serves_properties": [k for k,v in CHECKS.items() if v["engine"]=="seq"],
